@@ -20,6 +20,23 @@ def run(cmd, **kw):
     return subprocess.run(cmd, capture_output=True, text=True, **kw)
 
 
+def baseline(check, head):
+    """exit code and violation keys of the check on the unchanged tree (cached per repository commit and per state of
+    /verif's working tree)"""
+    state = run(['git', '-C', '/verif', 'rev-parse', '--short', 'HEAD']).stdout.strip() + '-' + str(
+        abs(hash(run(['git', '-C', '/verif', 'diff', '--', 'vp']).stdout)) % 10 ** 8)
+    path = os.path.join(tempfile.gettempdir(), f'seedtest-baseline-{head}-{state}-{check}.json')
+    if os.path.exists(path):
+        return json.load(open(path))
+    env = dict(os.environ, PYTHONPATH='/verif', VP_NO_EVIDENCE='1')
+    k = run([PY, '-m', 'vp.cli', check, '--tier', 'quick'], cwd='/verif', env=env)
+    keys = [ln.strip().split(' count=')[0] for ln in k.stdout.splitlines() if ln.strip().startswith('key=')]
+    out = {'exit': k.returncode, 'keys': keys}
+    with open(path, 'w') as f:
+        json.dump(out, f)
+    return out
+
+
 def main():
     args = sys.argv[1:]
     prop, n = args[0], args[1]
@@ -63,7 +80,11 @@ def main():
                 k = run([PY, '-m', 'vp.cli', c, '--tier', 'quick'], cwd='/verif', env=env)
                 keys = [ln.strip()[:300] for ln in k.stdout.splitlines() if ln.strip().startswith('key=')]
                 verdict = [ln for ln in k.stdout.splitlines() if 'verdict=' in ln]
-                meta['checks'][c] = {'exit': k.returncode, 'caught': k.returncode == 1, 'keys': keys[:8],
+                # a violation only counts when the unchanged tree (same commit, same version of the check) is quiet
+                base = baseline(c, meta['repo_head'])
+                new_keys = [x for x in keys if x.split(' count=')[0] not in base['keys']]
+                meta['checks'][c] = {'exit': k.returncode, 'caught': k.returncode == 1 and bool(new_keys or not keys),
+                                     'keys': (new_keys or keys)[:8], 'baseline_exit': base['exit'],
                                      'summary': verdict[-1][:200] if verdict else k.stdout[-300:]}
         meta['what_was_run'] = ('demo.py with PYTHONPATH=/repo/src (unchanged) and <worktree>/src (changed); '
                                 'pytest -q in the worktree with PYTHONPATH=<worktree>/src; '
